@@ -215,7 +215,7 @@ def run(ctx):
         cases = [cl.case_from_json(j) for j in ctx.replay['cases']]
     else:
         cases = directed()
-        parked = cl.gen_parked(r)
+        parked = cl.gen_parked(r) + cl.gen_large(r)
         cases += [c for c, _ in parked]
         n = 5000 if ctx.quick() else 30000
         while len(cases) < n:
@@ -244,8 +244,8 @@ def run(ctx):
     if not ctx.replay:
         # the transmit side: a parked write ends at write start + request timeout with the I/O class, everything queued behind it then runs
         k0 = len(directed())
-        nexp = cl.check_expectations(ctx, 'C10.request-behind-or-in-a-parked-write-not-completed-as-required', parked, impl[k0:k0 + len(parked)])
-        ctx.oblige('spec:directed-parked-write-expectations', nexp == 0, f'{nexp} failed of {len(parked)}')
+        nexp = cl.check_expectations(ctx, 'C10.completion-of-a-directed-script-not-as-the-property-requires', parked, impl[k0:k0 + len(parked)])
+        ctx.oblige('spec:directed-parked-write-and-large-frame-expectations', nexp == 0, f'{nexp} failed of {len(parked)}')
     classes = {}
     n_req = n_done = 0
     for c, i in zip(cases, impl):
